@@ -1,0 +1,21 @@
+//go:build verif
+// +build verif
+
+package geometry
+
+// Hooks for the /verif conformance harness; compiled only with -tags verif.
+
+// VerifRunaway is the panic value raised when a loop exceeds the bound on the
+// number of distinct states it can be in (i.e. it provably cycles).
+type VerifRunaway struct {
+	Site  string
+	Steps int
+}
+
+func verifStep(site string, n, bound int) int {
+	n++
+	if n > bound {
+		panic(VerifRunaway{Site: site, Steps: n})
+	}
+	return n
+}
